@@ -16,6 +16,18 @@ def c15(tier):
     ]
 
 
+def c16(tier):
+    return [R("mbuilder", args={"mode": "routing"})]
+
+
+def c17(tier):
+    return [R("mbuilder", args={"mode": "misuse"})]
+
+
+def c18(tier):
+    return [R("pbuilder")]
+
+
 def c12(tier):
     return [
         R("stats", args={"faults": 1}),
@@ -84,6 +96,9 @@ PLAN = {
     "C13": c13,
     "C14": c14,
     "C15": c15,
+    "C16": c16,
+    "C17": c17,
+    "C18": c18,
 }
 
 LEVEL = {
@@ -108,6 +123,9 @@ LEVEL = {
 }
 
 RULES = {
+    "C18": "every call sequence of length <= L (3 quick, 4 thorough) over observations(rows in {0,1,2,3,4} x cols in {0,1,2,3}), weights(len in {0,1,2,3,4}, all-ones | varied), epsilon(+-1e-2, +-1e-8, 0[, 1e-300, -0]) for the constructors new/new_parallel/mrhs/mrhs_parallel x model output length {0,1,3} x {f64,f32}; the 3-sample model has an exactly diagonal basis diag(1, d2) with d2 = 1e-5 or 0.4375*eps so that the threshold in force is observable in the coefficients; every sequence is a distinct case",
+    "C17": "environment = which of the 6 closures (3 basis functions, 3 derivatives) of a builder-made model returns a vector of wrong length (0, N-1, N+1, 2N), singly, in all pairs with cancelling totals, and two triples; within each environment ALL op sequences up to depth d (3 quick, 4 thorough) over 12 ops: eval, eval_partial_deriv(k) for k in {0,1,P,P+1,usize::MAX}, set_params(good a1|a2), set_params of length 0, P-1, P+1, 2P; every step is compared with the reference (last accepted parameters, exact expected matrices, expected error kind and payload); every sequence counts as distinct and non-trivial",
+    "C16": "case = one builder-made model with injectively tagged closures: model parameter list = every permutation of {a,b,c} and {a,b,c,d}; a function over every ordered subset (arity 1..4) with every order of supplying its derivatives, with an invariant function before/after/absent; pairs of functions over all pairs of ordered subsets; arity 5..10 on a 10-parameter model with every rotation, every transposition of the identity and of a scattered assignment, three derivative orders, three rotations of the model list; f32 and f64; oracle = exact (bitwise) comparison of eval, every eval_partial_deriv, params round-trip and parameters(); every model is distinct and non-trivial",
     "C01": "scenario = (family, N, provenance, f32|f64, seq|par, single|mrhs + observation columns, weight kind, threshold kind, alphabet of 4-9 parameter vectors); within a scenario ALL histories of set_params over the alphabet up to depth d are executed on the live problem (d=2 quick, 3 thorough; C10: 3/4); state = everything the LeastSquaresProblem interface exposes (bit patterns of params, residuals, coefficients, Jacobian); non-trivial = distinct reached states whose rank class is decidable (Full or Truncated) and on which the heavy oracle ran",
     "C02": "scenario = (family, N, provenance, f32|f64, seq|par, single|mrhs + observation columns, weight kind, threshold kind, alphabet of 4-9 parameter vectors); within a scenario ALL histories of set_params over the alphabet up to depth d are executed on the live problem (d=2 quick, 3 thorough; C10: 3/4); state = everything the LeastSquaresProblem interface exposes (bit patterns of params, residuals, coefficients, Jacobian); non-trivial = distinct reached states whose rank class is decidable (Full or Truncated) and on which the heavy oracle ran",
     "C03": "scenario = (family, N, provenance, f32|f64, seq|par, single|mrhs + observation columns, weight kind, threshold kind, alphabet of 4-9 parameter vectors); within a scenario ALL histories of set_params over the alphabet up to depth d are executed on the live problem (d=2 quick, 3 thorough; C10: 3/4); state = everything the LeastSquaresProblem interface exposes (bit patterns of params, residuals, coefficients, Jacobian); non-trivial = distinct reached states whose rank class is decidable (Full or Truncated) and on which the heavy oracle ran; plus the fault sweep of the C09 engine for the all-or-nothing clause",
@@ -124,6 +142,9 @@ RULES = {
 }
 
 ASSUMPTIONS = {
+    "C18": ["reference validation function in harness/src/bin/pbuilder.rs", "threshold cases within a factor 2 of the singular value are not judged"],
+    "C17": ["one 3-function / 2-parameter model with N = 4 samples is representative of the guards, which do not depend on the model's size"],
+    "C16": ["tag encoding is injective: parameter values 3+2k, function tag 1000+j, derivative tag 2000+100j+q, x = 500+i are pairwise distinct and exactly representable in f32"],
     "C01": ["reference linear algebra: one-sided Jacobi SVD in f64 (harness/src/refla.rs)", "states within a factor 2 of the threshold (plus rounding floor) are not judged"],
     "C02": ["identity tolerance 16(M+2) eps scaled"],
     "C03": ["full-rank states with 256 max(N,M) eps kappa <= 1e-2 only"],
